@@ -160,6 +160,9 @@ class NativeBackend(BackendBase):
     def mklist(self, values):
         return list(values)
 
+    def symlist(self, values, n):
+        return list(values)[:n]
+
     def mktuple(self, values):
         return tuple(values)
 
@@ -299,6 +302,36 @@ class NativeBackend(BackendBase):
         if isinstance(v, BaseException):
             return {"$exc": type(v).__name__}
         return {"$new": type(v).__name__}
+
+    # ---- C10: the abstract base pickler under the REAL nrpickler module
+    def with_fake_dill(self, src):
+        import inspect
+        fake = types.ModuleType("dill")
+        fake.depth_probe = lambda: len(inspect.stack())
+        exec(compile(src, "<fake dill>", "exec"), fake.__dict__)
+        saved = {k: sys.modules.get(k) for k in ("dill", "edgegraph.output.nrpickler")}
+        sys.modules["dill"] = fake
+        sys.modules.pop("edgegraph.output.nrpickler", None)
+        try:
+            nr = importlib.import_module("edgegraph.output.nrpickler")
+        finally:
+            # restore the real modules for everybody else; ``nr`` keeps its reference to the fake base class
+            for k, v in saved.items():
+                if v is None:
+                    sys.modules.pop(k, None)
+                else:
+                    sys.modules[k] = v
+            import edgegraph.output as _out
+            if saved["edgegraph.output.nrpickler"] is not None:
+                _out.nrpickler = saved["edgegraph.output.nrpickler"]
+            elif hasattr(_out, "nrpickler"):
+                delattr(_out, "nrpickler")
+        env = dict(fake.__dict__)
+        env["nrpickler"] = nr
+        return env
+
+    def native_only(self, fn):
+        fn(self)
 
     # ---- random number generator: answers taken from the model
     def install_rng(self):
